@@ -5,8 +5,13 @@
 // freshly forked child of a parent that never touched the recorder).
 //
 // Actions (the specification's thread t is a real std::thread of its own, created
-// at its first action and kept alive until the history ends, so thread ids are
-// never reused while the recorder is in use):
+// by ThreadStart (or at its first action) and alive until ThreadExit joins it or the
+// history ends.  The driver's main thread does every creation and every join and
+// stamps them with one logical clock: born[t] is taken just before the std::thread
+// is constructed, died[t] just after join() returned, so died[t] < born[u] means
+// thread t had ended before thread u was created - only then can the OS hand t's
+// std::thread::id to u):
+//   ThreadStart {t} / ThreadExit {t}
 //   Begin / End / Marker / Counter {t, name, cat, val}   executed on thread t, synchronously
 //   SetName {t, name}                                     setThreadName on thread t
 //   MemUse {t}                                            recordMemUse on thread t (built-in counters)
@@ -14,6 +19,12 @@
 //        every listed thread generates and records n events of its own (seeded,
 //        begin/end balanced while running, all open events closed inside the n
 //        events), all threads at the same time; reports what each thread called
+//   RunSequential {lead: prog | null, workers: [prog, ...]}
+//        thread 1 (lead, optional) records the first half of its events, then the
+//        workers (threads 2, 3, ...) are created, record and are joined ONE AFTER THE
+//        OTHER - the next std::thread is constructed right after the join, which is
+//        what makes the OS recycle the thread id -, then the lead records its second
+//        half and stays alive; reports what each thread called
 //   SaveLog {pname, raw}    saveLog(file, pname or nullptr) from the driver's main thread,
 //        then reads the file back with the strict JSON reader below and reports
 //          json     "wellformed" | "malformed" (+ why / head / tail of the text)
@@ -21,6 +32,8 @@
 //                   name no recorded counter used, grouped by tid in order of first
 //                   appearance, each projected to the fields the contract constrains
 //          log      (raw = true, or at most 100 entries) every entry as [tid, ph, name, cat, val] for TLC
+//          life     [t, born, died] of every thread created so far (died = 0: still alive)
+//          threads_created / thread_ids_distinct   observation: did the OS recycle a std::thread::id
 // Nothing is decided here.
 #include <unistd.h>
 #include <condition_variable>
@@ -209,7 +222,8 @@ struct Worker
   bool hasJob = false, busy = false, quit = false;
   std::map<std::string, std::unique_ptr<std::string>> names; // one stable pointer per distinct text
 
-  Worker() { th = std::thread([this] { loop(); }); }
+  std::thread::id id;
+  Worker() { th = std::thread([this] { loop(); }); id = th.get_id(); }
   ~Worker()
   {
     {
@@ -273,14 +287,65 @@ struct World
   std::set<std::string> counterNames; // names of the counters the history recorded
   std::string dir;
   long counter = 0;
+  long long clock = 0;                               // logical time of creations and joins (main thread only)
+  std::map<long long, long long> born, died;         // per specification thread
+  std::vector<std::thread::id> idsSeen;              // the std::thread::id of every thread ever created
 
   World(const Json &hist) { dir = hist.has("tmpdir") ? hist["tmpdir"].str() : std::string("/tmp"); }
 
   Worker &worker(long long t)
   {
     auto it = workers.find(t);
-    if (it == workers.end()) it = workers.emplace(t, std::unique_ptr<Worker>(new Worker())).first;
+    if (it == workers.end()) {
+      if (born.count(t)) throw std::runtime_error("driver: action on a thread that has ended");
+      born[t] = ++clock;
+      it = workers.emplace(t, std::unique_ptr<Worker>(new Worker())).first;
+      idsSeen.push_back(it->second->id);
+    }
     return *it->second;
+  }
+
+  void endThread(long long t)
+  {
+    auto it = workers.find(t);
+    if (it == workers.end()) throw std::runtime_error("driver: ThreadExit of a thread that is not alive");
+    workers.erase(it);                               // ~Worker joins
+    died[t] = ++clock;
+  }
+
+  void lifeInto(Json &o)
+  {
+    Json life = Json::array();
+    for (auto &b : born) {
+      Json e = Json::array();
+      e.push(Json(b.first));
+      e.push(Json(b.second));
+      e.push(Json(died.count(b.first) ? died[b.first] : 0LL));
+      life.push(e);
+    }
+    o.set("life", life);
+    std::set<std::thread::id> distinct(idsSeen.begin(), idsSeen.end());
+    o.set("threads_created", (long long)idsSeen.size());
+    o.set("thread_ids_distinct", (long long)distinct.size());
+  }
+
+  Json recJson(const std::vector<std::vector<Rec>> &recs)
+  {
+    Json all = Json::array();
+    for (size_t i = 0; i < recs.size(); ++i) {
+      Json one = Json::array();
+      for (const Rec &r : recs[i]) {
+        Json e = Json::array();
+        e.push(Json(std::string(1, r.k)));
+        e.push(Json(r.name));
+        e.push(Json(r.cat));
+        e.push(Json(r.val));
+        one.push(e);
+        if (r.k == 'C') counterNames.insert(r.name);
+      }
+      all.push(one);
+    }
+    return all;
   }
 
   static Json entry(const Json &e, bool &shapeOk)
@@ -339,6 +404,7 @@ struct World
     }
     o.set("json", ok ? "wellformed" : "malformed");
     o.set("bytes", (long long)text.size());
+    lifeInto(o);
     if (!ok) {
       o.set("why", why);
       o.set("head", text.substr(0, 120));
@@ -445,24 +511,61 @@ struct World
         w->post([w, t, pr, out] { program(*w, t, *pr, *out); });
       }
       for (size_t i = 0; i < progs.size(); ++i) worker((long long)i + 1).wait();
-      Json all = Json::array();
-      for (size_t i = 0; i < recs.size(); ++i) {
-        Json one = Json::array();
-        for (const Rec &r : recs[i]) {
-          Json e = Json::array();
-          e.push(Json(std::string(1, r.k)));
-          e.push(Json(r.name));
-          e.push(Json(r.cat));
-          e.push(Json(r.val));
-          one.push(e);
-          if (r.k == 'C') counterNames.insert(r.name);
-        }
-        all.push(one);
-      }
+      Json all = recJson(recs);
       o.set("rec", all);
       return o;
     }
+    if (a == "RunSequential") {
+      const Json &lead = arg["lead"];
+      const Json &ws = arg["workers"];
+      const bool hasLead = lead.type == Json::Obj;
+      std::vector<std::vector<Rec>> recs(1 + ws.size());
+      Json half1, half2;
+      if (hasLead) {
+        // the lead records n/2 events before and n - n/2 events after the workers, each half closed in itself
+        half1 = lead; half2 = lead;
+        const long long n = lead["n"].num();
+        half1.set("n", n / 2);
+        half2.set("n", n - n / 2);
+        half2.set("seed", lead["seed"].num() + 7919);
+        half2.set("tname", "");
+        Worker *w = &worker(1);
+        std::vector<Rec> *out = &recs[0];
+        const Json *pr = &half1;
+        w->post([w, pr, out] { program(*w, 1, *pr, *out); });
+        w->wait();
+      }
+      for (size_t i = 0; i < ws.size(); ++i) {
+        const long long t = (long long)i + 2;
+        Worker *w = &worker(t);                       // created right after the previous worker was joined
+        std::vector<Rec> *out = &recs[i + 1];
+        const Json *pr = &ws[i];
+        w->post([w, t, pr, out] { program(*w, t, *pr, *out); });
+        w->wait();
+        endThread(t);
+      }
+      if (hasLead) {
+        Worker *w = &worker(1);
+        std::vector<Rec> *out = &recs[0];
+        const Json *pr = &half2;
+        w->post([w, pr, out] { program(*w, 1, *pr, *out); });
+        w->wait();
+      }
+      o.set("rec", recJson(recs));
+      return o;
+    }
     const long long t = arg["t"].num();
+    if (a == "ThreadStart") {
+      if (workers.count(t) || born.count(t)) throw std::runtime_error("driver: ThreadStart of a thread that already exists");
+      worker(t);
+      o.set("ret", "void");
+      return o;
+    }
+    if (a == "ThreadExit") {
+      endThread(t);
+      o.set("ret", "void");
+      return o;
+    }
     Worker &w = worker(t);
     const std::string name = arg["name"].type == Json::Str ? arg["name"].str() : std::string();
     const std::string cat = arg["cat"].type == Json::Str ? arg["cat"].str() : std::string();
